@@ -19,8 +19,20 @@ claim("C07", SIM + "; oracle: bounded liveness to one common session at quiescen
       "trusted: Go toolchain/stdlib, harness; one start per side (a second start while an exchange is running is a protocol-inherent race and carries no obligation); release of queued texts is decided by C18",
       "DESIGN.md section 5 C07")
 
+claim("C08", SIM + "; oracle: reachability/erasure scan of the conversation's object graph after every call against a retention model",
+      "After every API call of PRNG-generated session histories (rotations, refresh, abandoned AKE, SMP, End, peer disconnect, loss) the object graph reachable from the Conversation is walked (reflect+unsafe, slices to capacity, big.Int words in both byte orders) and searched for every secret the party drew from its randomness source and every text it was given; "
+      "a model written from the statement says which may remain (two newest DH keys, AKE in progress, queued texts, the last message). Aliased read buffers are checked for in-place erasure.",
+      "trusted: Go toolchain/stdlib, harness walker; invisible: copies in temporaries outside the conversation graph; fragmentation off so emitted message kinds are classifiable",
+      "DESIGN.md section 5 C08")
+
+claim("C10", SIM + "; oracle: shadow execution of an independent reference implementation (refotr) fed the same inputs and random draws; byte equality of AKE messages, field/crypto equality of data messages; reference as live peer for the reverse direction",
+      "Every message emitted by a real Conversation in PRNG-generated mixed histories is strictly parsed and re-serialised (identical bytes), AKE messages must equal the bytes the reference produces from the same secrets, data messages must carry the key ids, next key, counter, MAC, ciphertext and TLV layout the reference's state prescribes; SSID, fingerprint, highlight and extra symmetric key must agree. "
+      "In half of the runs the reference is the live peer: otr3 must accept and read what it builds and vice versa.",
+      "trusted: refotr as a faithful reading of the OTR v2/v3 specification (DESIGN.md appendix B), Go stdlib crypto (shared by both implementations)",
+      "DESIGN.md section 5 C10")
+
 _todo = "check not built yet in this session (see DESIGN.md section 12 build order)"
-for pid in ["C01", "C02", "C03", "C05", "C06", "C08", "C09", "C10", "C11", "C12", "C13", "C14", "C15", "C16", "C18", "C19", "C20"]:
+for pid in ["C01", "C02", "C03", "C05", "C06", "C09", "C11", "C12", "C13", "C14", "C15", "C16", "C18", "C19", "C20"]:
     NA[pid] = _todo
 NA["C17"] = ("pure function of one input (parse(serialise(x)) = x): no schedule, clock, fault, peer or history for a simulator to vary; "
              "deterministic simulation does not apply (DESIGN.md section 5 C17)")
